@@ -283,8 +283,7 @@ pub fn record_one(b: &mut Batch, r: &mut StdRng, p: &Profile, modes: &[RealMode]
     let sm = crate::parse::to_scanner_modes(modes);
     let cached = r.gen_bool(if p.max_modes > 1 { 0.7 } else { 0.3 });
     let built = std::panic::catch_unwind(std::panic::AssertUnwindSafe(|| {
-        let bld = scnr::ScannerBuilder::new().add_scanner_modes(&sm);
-        if cached { bld.build() } else { bld.build_uncached() }
+        crate::parse::build_via(&sm, cached)
     }));
     let syms: Vec<char> = vec![];
     let mut w = World::new(&syms);
@@ -546,8 +545,7 @@ fn record_c15(b: &mut Batch, r: &mut StdRng, trace_id: usize) {
     let sm = crate::parse::to_scanner_modes(&modes);
     let cached = r.gen_bool(0.5);
     let built = std::panic::catch_unwind(std::panic::AssertUnwindSafe(|| {
-        let bld = scnr::ScannerBuilder::new().add_scanner_modes(&sm);
-        if cached { bld.build().map(|_| ()) } else { bld.build_uncached().map(|_| ()) }
+        crate::parse::build_via(&sm, cached).map(|_| ())
     }));
     match built {
         Err(e) => b.events.push(json!({"op": "panic", "during": "build", "msg": crate::exec::panic_msg(e)})),
@@ -642,8 +640,7 @@ pub fn main_retrace(args: &[String]) -> i32 {
                 let cached = e["cached"].as_bool().unwrap_or(false);
                 let sm = crate::parse::to_scanner_modes(&modes);
                 let built = std::panic::catch_unwind(std::panic::AssertUnwindSafe(|| {
-                    let bld = scnr::ScannerBuilder::new().add_scanner_modes(&sm);
-                    if cached { bld.build() } else { bld.build_uncached() }
+                    crate::parse::build_via(&sm, cached)
                 }));
                 match built {
                     Err(p) => { b.events.push(json!({"op": "panic", "during": "build", "msg": crate::exec::panic_msg(p)})); break; }
